@@ -1,6 +1,7 @@
 package common
 
 import (
+	"encoding/json"
 	"github.com/protolambda/ztyp/codec"
 	"github.com/protolambda/ztyp/tree"
 	. "github.com/protolambda/ztyp/view"
@@ -108,6 +109,13 @@ func (a *ConsolidationRequest) HashTreeRoot(hFn tree.HashFn) Root {
 
 type DepositRequests []DepositRequest
 
+func (li DepositRequests) MarshalJSON() ([]byte, error) {
+	if li == nil {
+		return []byte("[]"), nil // encode as empty list, not null
+	}
+	return json.Marshal([]DepositRequest(li))
+}
+
 func DepositRequestsType(spec *Spec) ListTypeDef {
 	return ListType(DepositRequestType, uint64(spec.MAX_DEPOSIT_REQUESTS_PER_PAYLOAD))
 }
@@ -146,6 +154,13 @@ func (li DepositRequests) HashTreeRoot(spec *Spec, hFn tree.HashFn) Root {
 
 type WithdrawalRequests []WithdrawalRequest
 
+func (li WithdrawalRequests) MarshalJSON() ([]byte, error) {
+	if li == nil {
+		return []byte("[]"), nil // encode as empty list, not null
+	}
+	return json.Marshal([]WithdrawalRequest(li))
+}
+
 func WithdrawalRequestsType(spec *Spec) ListTypeDef {
 	return ListType(WithdrawalRequestType, uint64(spec.MAX_WITHDRAWAL_REQUESTS_PER_PAYLOAD))
 }
@@ -183,6 +198,13 @@ func (li WithdrawalRequests) HashTreeRoot(spec *Spec, hFn tree.HashFn) Root {
 }
 
 type ConsolidationRequests []ConsolidationRequest
+
+func (li ConsolidationRequests) MarshalJSON() ([]byte, error) {
+	if li == nil {
+		return []byte("[]"), nil // encode as empty list, not null
+	}
+	return json.Marshal([]ConsolidationRequest(li))
+}
 
 func ConsolidationRequestsType(spec *Spec) ListTypeDef {
 	return ListType(ConsolidationRequestType, uint64(spec.MAX_CONSOLIDATION_REQUESTS_PER_PAYLOAD))
